@@ -129,3 +129,52 @@ class PipeScenario(Scenario):
 
     def emit_raised(self):
         return [e for e in self.log if e[0] == "emit-raised"]
+
+
+TIMED = ("delay", "rate_limit", "timed_window", "timed_window_unique", "partition")
+
+
+def needs_clock(nodes):
+    for s in nodes:
+        name, a = parse(s)
+        if name in ("delay", "rate_limit", "timed_window", "timed_window_unique"):
+            return True
+        if name == "partition" and len(a) > 1 and a[1] not in (0, "none"):
+            return True
+    return False
+
+
+class JoinScenario(PipeScenario):
+    """two sources, each through an optional node, joined by zip / union -> [post] -> sink.
+    params: join ('zip:<maxsize>' | 'union'), left, right (spec or ''), post (tuple), kind, n, mode"""
+
+    def build(self):
+        from streamz import Stream
+        p = self.params
+        self.srcA = Stream(asynchronous=True, loop=self.ioloop)
+        self.srcB = Stream(asynchronous=True, loop=self.ioloop)
+        self.src = self.srcA
+        a = self.build_node(self.srcA, p["left"]) if p.get("left") else self.srcA
+        b = self.build_node(self.srcB, p["right"]) if p.get("right") else self.srcB
+        jname, ja = parse(p["join"])
+        if jname == "zip":
+            node = a.zip(b, maxsize=ja[0]) if ja else a.zip(b)
+        elif jname == "union":
+            node = a.union(b)
+        elif jname == "combine_latest":
+            node = a.combine_latest(b)
+        elif jname == "zip_latest":
+            node = a.zip_latest(b)
+        else:
+            raise KeyError(jname)
+        self.join = node
+        for spec in p.get("post", ()):
+            node = self.build_node(node, spec)
+        self.last = node
+        self.attach_sink(node)
+        n = p.get("n", 2)
+        nb = p.get("nb", n)
+        self.add_producer("a", self.srcA, [10 + i for i in range(1, n + 1)], mode=p.get("mode", "await"))
+        self.add_producer("b", self.srcB, [20 + i for i in range(1, nb + 1)], mode=p.get("mode", "await"))
+        if p.get("marks"):
+            self.clock_marks(p["marks"])
